@@ -159,6 +159,11 @@ pub trait Scenario: Sync {
     fn state_oracle(&self, _w: &mut World, _v: &View, _goals: &mut BTreeSet<String>) -> Vec<Finding> {
         vec![]
     }
+    /// oracle with access to the live world right after a transition (its
+    /// probing happens after the successor key has been taken)
+    fn after_step(&self, _w: &mut World, _pre: &View, _obs: &StepObs, _post: &View, _goals: &mut BTreeSet<String>) -> Vec<Finding> {
+        vec![]
+    }
     /// "sometimes" facts this scenario must observe at least once
     fn goals(&self) -> Vec<&'static str> {
         vec![]
@@ -288,7 +293,7 @@ pub fn observe(w: &mut World, a: &Act, depth: usize) -> Result<(View, StepObs, V
     Ok((pre, obs, post))
 }
 
-fn transcript(scn: &dyn Scenario, hist: &[Act]) -> Vec<String> {
+pub fn transcript(scn: &dyn Scenario, hist: &[Act]) -> Vec<String> {
     let mut out = vec![];
     let mut w = World::new(scn.config(), scn.slots());
     if scn.prelude(&mut w).is_err() {
@@ -343,6 +348,7 @@ pub fn judge(scn: &dyn Scenario, cfg: &SpecCfg, focus: &Focus, pre: &View, obs: 
 }
 
 struct Expansion {
+    acts: Vec<Act>,
     succ: Vec<(Act, u128)>,
     violations: Vec<Violation>,
     probes: u64,
@@ -356,20 +362,29 @@ struct Expansion {
     machinery: Option<String>,
 }
 
+impl Expansion {
+    fn empty() -> Expansion {
+        Expansion {
+            acts: vec![],
+            succ: vec![],
+            violations: vec![],
+            probes: 0,
+            spec_checked: 0,
+            spec_silent: 0,
+            replays: 0,
+            polls: 0,
+            goals: BTreeSet::new(),
+            classes: BTreeSet::new(),
+            sample: None,
+            machinery: None,
+        }
+    }
+}
+
+/// Phase A of a state: rebuild, determinism check, state oracle, probes, and
+/// the list of enabled actions.
 fn expand(scn: &dyn Scenario, hist: &[Act], key: u128, want_sample: bool) -> Expansion {
-    let mut ex = Expansion {
-        succ: vec![],
-        violations: vec![],
-        probes: 0,
-        spec_checked: 0,
-        spec_silent: 0,
-        replays: 0,
-        polls: 0,
-        goals: BTreeSet::new(),
-        classes: BTreeSet::new(),
-        sample: None,
-        machinery: None,
-    };
+    let mut ex = Expansion::empty();
     let cfg = scn.spec_cfg();
     let depth = hist.len();
     macro_rules! mach {
@@ -401,7 +416,7 @@ fn expand(scn: &dyn Scenario, hist: &[Act], key: u128, want_sample: bool) -> Exp
             scenario: scn.name(),
             sig: f.sig,
             detail: f.detail,
-            transcript: transcript(scn, hist),
+            transcript: vec![],
             history: hist.to_vec(),
         });
     }
@@ -423,7 +438,7 @@ fn expand(scn: &dyn Scenario, hist: &[Act], key: u128, want_sample: bool) -> Exp
                 scenario: scn.name(),
                 sig: f.sig,
                 detail: f.detail,
-                transcript: transcript(scn, &h),
+                transcript: vec![],
                 history: h,
             });
         }
@@ -439,45 +454,77 @@ fn expand(scn: &dyn Scenario, hist: &[Act], key: u128, want_sample: bool) -> Exp
         }
     }
     ex.polls += w.polls;
-    // actions
-    let acts = scn.actions(&view);
-    let mut first = Some(w);
-    for a in acts {
-        let mut w2 = match first.take() {
-            Some(w) => w,
-            None => {
-                ex.replays += 1;
-                mach!(build(scn, hist))
-            }
-        };
-        let (pre, obs, post) = mach!(observe(&mut w2, &a, depth));
-        let fs = judge(scn, &cfg, &scn.focus(), &pre, &obs, &post, &mut ex.goals, &mut st);
-        ex.polls += w2.polls;
-        if fs.is_empty() {
-            let k = state_key(scn, &mut w2);
-            ex.succ.push((a.clone(), k));
-        } else {
+    ex.spec_checked = st.0;
+    ex.spec_silent = st.1;
+    ex.acts = scn.actions(&view);
+    if want_sample {
+        ex.sample = Some(serde_json::json!({
+            "history": hist.iter().map(|x| x.render()).collect::<Vec<_>>(),
+            "probes": sample_probes,
+        }));
+    }
+    ex
+}
+
+/// Execute one action from the state reached by `hist` and judge it.
+fn one_action(scn: &dyn Scenario, hist: &[Act], a: &Act, want_sample: bool) -> Expansion {
+    let mut ex = Expansion::empty();
+    let cfg = scn.spec_cfg();
+    let depth = hist.len();
+    let mut w2 = match build(scn, hist) {
+        Ok(w) => w,
+        Err(MachineryError(m)) => {
+            ex.machinery = Some(format!("{} (history {:?})", m, hist.iter().map(|a| a.render()).collect::<Vec<_>>()));
+            return ex;
+        }
+    };
+    ex.replays += 1;
+    let mut st = (0u64, 0u64);
+    let (pre, obs, post) = match observe(&mut w2, a, depth) {
+        Ok(x) => x,
+        Err(MachineryError(m)) => {
+            // a connection that can no longer be driven is a finding for the scenario
+            // (stalled handler), reported through the step oracle path
             let mut h = hist.to_vec();
             h.push(a.clone());
-            let tr = transcript(scn, &h);
-            for f in fs {
-                ex.violations.push(Violation {
-                    scenario: scn.name(),
-                    sig: f.sig,
-                    detail: f.detail,
-                    transcript: tr.clone(),
-                    history: h.clone(),
-                });
-            }
+            ex.violations.push(Violation {
+                scenario: scn.name(),
+                sig: "stalled".into(),
+                detail: format!("the server stopped making progress: {}", m),
+                transcript: vec![],
+                history: h,
+            });
+            return ex;
         }
-        if want_sample && ex.sample.is_none() {
-            ex.sample = Some(serde_json::json!({
-                "history": hist.iter().map(|x| x.render()).collect::<Vec<_>>(),
-                "action": a.render(),
-                "observed": obs.lines,
-                "probes": sample_probes,
-            }));
+    };
+    let mut fs = judge(scn, &cfg, &scn.focus(), &pre, &obs, &post, &mut ex.goals, &mut st);
+    let k = state_key(scn, &mut w2);
+    if fs.is_empty() {
+        fs.extend(scn.after_step(&mut w2, &pre, &obs, &post, &mut ex.goals));
+    }
+    ex.polls += w2.polls;
+    if fs.is_empty() {
+        ex.succ.push((a.clone(), k));
+    } else {
+        let mut h = hist.to_vec();
+        h.push(a.clone());
+        let tr: Vec<String> = vec![];
+        for f in fs {
+            ex.violations.push(Violation {
+                scenario: scn.name(),
+                sig: f.sig,
+                detail: f.detail,
+                transcript: tr.clone(),
+                history: h.clone(),
+            });
         }
+    }
+    if want_sample {
+        ex.sample = Some(serde_json::json!({
+            "history": hist.iter().map(|x| x.render()).collect::<Vec<_>>(),
+            "action": a.render(),
+            "observed": obs.lines,
+        }));
     }
     ex.spec_checked = st.0;
     ex.spec_silent = st.1;
@@ -490,6 +537,32 @@ pub struct BfsOut {
     pub stats: Stats,
     pub violations: Vec<Violation>,
     pub machinery: Option<String>,
+}
+
+fn par_map<T: Sync, R: Send>(items: &[T], threads: usize, f: impl Fn(usize, &T) -> R + Sync) -> Vec<R> {
+    let n = items.len();
+    let chunk = ((n + threads * 8 - 1) / (threads * 8).max(1)).max(1);
+    let idx = std::sync::atomic::AtomicUsize::new(0);
+    let out: std::sync::Mutex<Vec<(usize, R)>> = std::sync::Mutex::new(Vec::with_capacity(n));
+    std::thread::scope(|s| {
+        for _ in 0..threads.max(1) {
+            s.spawn(|| loop {
+                let start = idx.fetch_add(chunk, Ordering::SeqCst);
+                if start >= n {
+                    break;
+                }
+                let end = (start + chunk).min(n);
+                let mut local = Vec::with_capacity(end - start);
+                for i in start..end {
+                    local.push((i, f(i, &items[i])));
+                }
+                out.lock().unwrap().extend(local);
+            });
+        }
+    });
+    let mut v = out.into_inner().unwrap();
+    v.sort_by_key(|x| x.0);
+    v.into_iter().map(|x| x.1).collect()
 }
 
 pub fn run(scn: &dyn Scenario, lim: &Limits) -> BfsOut {
@@ -513,49 +586,9 @@ pub fn run(scn: &dyn Scenario, lim: &Limits) -> BfsOut {
     stats.states = 1;
     stats.exhausted = true;
     let mut depth = 0;
-    loop {
-        // expand this level in parallel; states at depth == limit are still
-        // probed/oracled but their successors are not generated
-        let n = frontier.len();
-        stats.per_depth.push(n as u64);
-        let last_level = depth >= lim.depth;
-        let chunk = (n + lim.threads * 4 - 1) / (lim.threads * 4).max(1);
-        let chunk = chunk.max(1);
-        let idx = std::sync::atomic::AtomicUsize::new(0);
-        let results: Vec<std::sync::Mutex<Vec<(usize, Expansion)>>> = (0..lim.threads).map(|_| std::sync::Mutex::new(vec![])).collect();
-        let fr = &frontier;
-        let sample_at = if stats.samples.len() < 3 { Some(n / 2) } else { None };
-        std::thread::scope(|s| {
-            for t in 0..lim.threads {
-                let results = &results;
-                let idx = &idx;
-                s.spawn(move || {
-                    loop {
-                        let start = idx.fetch_add(chunk, Ordering::SeqCst);
-                        if start >= n {
-                            break;
-                        }
-                        let end = (start + chunk).min(n);
-                        for i in start..end {
-                            if STOP.load(Ordering::SeqCst) {
-                                return;
-                            }
-                            let (h, k) = &fr[i];
-                            let ex = if last_level {
-                                expand_leaf(scn, h, *k)
-                            } else {
-                                expand(scn, h, *k, sample_at == Some(i))
-                            };
-                            results[t].lock().unwrap().push((i, ex));
-                        }
-                    }
-                });
-            }
-        });
-        let mut all: Vec<(usize, Expansion)> = results.into_iter().flat_map(|m| m.into_inner().unwrap()).collect();
-        all.sort_by_key(|x| x.0);
-        let mut next: Vec<(Vec<Act>, u128)> = vec![];
-        for (i, ex) in all {
+    macro_rules! absorb {
+        ($ex:expr) => {{
+            let ex = $ex;
             if let Some(m) = ex.machinery {
                 return BfsOut {
                     stats,
@@ -571,22 +604,53 @@ pub fn run(scn: &dyn Scenario, lim: &Limits) -> BfsOut {
             stats.goals_hit.extend(ex.goals);
             stats.outcome_classes.extend(ex.classes);
             if let Some(s) = ex.sample {
-                if stats.samples.len() < 3 {
+                if stats.samples.len() < 4 {
                     stats.samples.push(s);
                 }
             }
-            stats.transitions += ex.succ.len() as u64 + ex.violations.iter().map(|v| v.history.len()).filter(|l| *l > frontier[i].0.len()).count() as u64;
             violations.extend(ex.violations);
-            for (a, k) in ex.succ {
+            (ex.acts, ex.succ)
+        }};
+    }
+    loop {
+        let n = frontier.len();
+        stats.per_depth.push(n as u64);
+        let last_level = depth >= lim.depth;
+        let want_sample_at = if stats.samples.len() < 2 { n / 2 } else { usize::MAX };
+        // phase A: every state of this level (oracle, probes, enabled actions)
+        let prepped = par_map(&frontier, lim.threads, |i, (h, k)| {
+            if last_level {
+                expand_leaf(scn, h, *k)
+            } else {
+                expand(scn, h, *k, i == want_sample_at)
+            }
+        });
+        let mut work: Vec<(usize, Act)> = vec![];
+        for (i, ex) in prepped.into_iter().enumerate() {
+            let (acts, _) = absorb!(ex);
+            for a in acts {
+                work.push((i, a));
+            }
+        }
+        if last_level {
+            break;
+        }
+        // phase B: every (state, action) of this level
+        let fr = &frontier;
+        let sample_unit = if stats.samples.len() < 4 { work.len() / 2 } else { usize::MAX };
+        let done = par_map(&work, lim.threads, |j, (i, a)| one_action(scn, &fr[*i].0, a, j == sample_unit));
+        let mut next: Vec<(Vec<Act>, u128)> = vec![];
+        stats.transitions += work.len() as u64;
+        for (j, ex) in done.into_iter().enumerate() {
+            let i = work[j].0;
+            let (_, succ) = absorb!(ex);
+            for (a, k) in succ {
                 if seen.insert(k) {
                     let mut h = frontier[i].0.clone();
                     h.push(a);
                     next.push((h, k));
                 }
             }
-        }
-        if last_level {
-            break;
         }
         stats.states += next.len() as u64;
         if next.is_empty() {
@@ -602,9 +666,7 @@ pub fn run(scn: &dyn Scenario, lim: &Limits) -> BfsOut {
         }
         if stats.states > lim.max_states {
             stats.exhausted = false;
-            stats.cap_hit = Some(format!("state cap {} reached at depth {}", lim.max_states, depth));
-            // still judge the states of this level as leaves
-            frontier.truncate(0);
+            stats.cap_hit = Some(format!("state cap {} reached at depth {} (levels below fully explored)", lim.max_states, depth));
             break;
         }
         if t0.elapsed().as_secs_f64() > lim.max_secs {
@@ -623,19 +685,8 @@ pub fn run(scn: &dyn Scenario, lim: &Limits) -> BfsOut {
 
 /// A state at the depth bound: oracle and probes only.
 fn expand_leaf(scn: &dyn Scenario, hist: &[Act], key: u128) -> Expansion {
-    let mut ex = Expansion {
-        succ: vec![],
-        violations: vec![],
-        probes: 0,
-        spec_checked: 0,
-        spec_silent: 0,
-        replays: 1,
-        polls: 0,
-        goals: BTreeSet::new(),
-        classes: BTreeSet::new(),
-        sample: None,
-        machinery: None,
-    };
+    let mut ex = Expansion::empty();
+    ex.replays = 1;
     let cfg = scn.spec_cfg();
     let depth = hist.len();
     let mut w = match build(scn, hist) {
@@ -657,7 +708,7 @@ fn expand_leaf(scn: &dyn Scenario, hist: &[Act], key: u128) -> Expansion {
             scenario: scn.name(),
             sig: f.sig,
             detail: f.detail,
-            transcript: transcript(scn, hist),
+            transcript: vec![],
             history: hist.to_vec(),
         });
     }
@@ -680,7 +731,7 @@ fn expand_leaf(scn: &dyn Scenario, hist: &[Act], key: u128) -> Expansion {
                 scenario: scn.name(),
                 sig: f.sig,
                 detail: f.detail,
-                transcript: transcript(scn, &h),
+                transcript: vec![],
                 history: h,
             });
         }
